@@ -102,6 +102,31 @@ CLAIMED["C20"] = {
     "design": "DESIGN.md section 3 C20",
 }
 
+CLAIMED["C16"] = {
+    "text": "Bounded model checking of the real linesplit: the input (plain str or FmtStr of up to 3 runs) is a symbolic "
+            "string whose every character ranges over {a, b, space, tab, newline, U+00A0, U+3000}, total length <= 4 "
+            "(thorough 6), plus plain strings over {a, space} up to length 8 (thorough 10); columns 1..4. On every path z3 "
+            "decides the comparison with a greedy first-fit reference wrap computed on character indices: line lengths, "
+            "word order, per-character formatting, single joining spaces whose formatting is bounded by the replaced "
+            "whitespace, no leading/trailing whitespace, words moved only when they do not fit, long words chopped.",
+    "note": "Trusted: CPython, CrossHair + z3 and its regex model (violations replayed with CPython's re), the reference "
+            "wrap. Longer texts and other whitespace characters are outside.",
+    "technique": TECH + "; native symbolic strings (characters symbolic), reference-model oracle",
+    "design": "DESIGN.md section 3 C16",
+}
+CLAIMED["C19"] = {
+    "text": "Bounded model checking of the real FmtStr.__eq__/__hash__/__repr__ (and Chunk.repr_part): pairs of FmtStrs of "
+            "0..2 runs with symbolic texts (length <= 1 quick / 2 thorough over {a, b}) over a catalogue of 20 layout pairs "
+            "that includes same-text/different-formatting, same-display/different-run-boundaries, False-vs-absent and "
+            "empty runs; plain str operands (symbolic, and terminal strings of a second FmtStr): ==, != and hash are "
+            "asserted to follow the terminal strings in both operand orders. repr: for every attribute pattern of the "
+            "tier's set and every text of a catalogue, eval(repr(f)) in the fmtfuncs namespace shows the same cells.",
+    "note": "Trusted: CPython, CrossHair + z3; str(f) itself is C01's subject (assume-guarantee). set/dict membership is "
+            "exercised on the real containers only in the concrete replays. Copy reducers for FmtStr/Chunk are an engine patch.",
+    "technique": TECH + "; native symbolic strings, solver-enumerated layout catalogue",
+    "design": "DESIGN.md section 3 C19",
+}
+
 NOT_YET = {}
 
 ALL = ["C%02d" % i for i in range(1, 21)]
